@@ -830,6 +830,7 @@ func main() {
 		func() starlark.Value { return mkList(I(0)) },
 		func() starlark.Value { return mkList(I(1)) },
 		func() starlark.Value { return mkDict(starlark.String("a"), I(0)) },
+		func() starlark.Value { return starlark.None }, // what Get answers for a missing key, as a present value
 	}
 	if thorough {
 		dictVals = append(dictVals,
